@@ -18,6 +18,10 @@ fn main() {
     unsafe { std::env::set_var("PATH", format!("{}:{}", fake.display(), path)) };
     common::init_out();
     common::install_panic_hook();
+    // roomy stacks for the enumeration threads: code under test that recurses (e.g. when dropping a
+    // deep tree built by a run the action budget has stopped) must yield a verdict from the checks
+    // that are about stack depth (worker subprocesses with a 2 MiB thread stack), not abort the harness
+    let _ = rayon::ThreadPoolBuilder::new().stack_size(256 << 20).build_global();
     let args: Vec<String> = std::env::args().collect();
     if args.len() < 2 {
         eprintln!("usage: verif <Cxx> [--tier quick|thorough] [--replay file]");
